@@ -10,7 +10,8 @@ namespace ys {
 
 const char* const SLOT_KINDS[NSLOTS] = {
     "V",   "V",     "IV",   "VI", "VV", "VV", "VIV", "IVVI", "VVV", "VIVIV",
-    "VVVV", "Q",    "QQ",   "QIQ", "T",  "S",  "RV",  "CV",   "W",   "VIW"};
+    "VVVV", "Q",    "QQ",   "QIQ", "T",  "S",  "RV",  "CV",   "W",   "VIW",
+    "VVVVV", "TICWR"};
 
 namespace {
 
@@ -565,16 +566,18 @@ bool small_ids_policy(const std::string& n) {
     return n == "vec" || n == "dfv" || n == "vecx";
 }
 bool no_alias_policy(const std::string& n) {
-    return n == "sdbg" || n == "srel" || n == "sofd" || n == "sofr";
+    return n == "sdbg" || n == "srel" || n == "sofd" || n == "sofr" ||
+        n == "shr";
 }
 
 const std::vector<std::string> ALL_POLS = {
     "dbg", "rel",  "vec",  "map", "ind",  "cind", "thr", "sdbg",
-    "srel", "dfr", "dfv", "mapx", "mapy", "relx", "vecx"};
-const std::vector<int> REF_SLOTS = {0, 1, 2, 3, 4, 5, 6, 7, 8, 9, 10, 14, 15, 16};
-const std::vector<int> VP_SLOTS = {11, 12, 13, 17, 18, 19};
+    "srel", "dfr", "dfv", "mapx", "mapy", "relx", "vecx", "shr"};
+const std::vector<int> REF_SLOTS = {0, 1, 2, 3, 4, 5, 6, 7, 8, 9, 10, 14, 15, 16, 20};
+const std::vector<int> VP_SLOTS = {11, 12, 13, 17, 18, 19, 21};
 const std::vector<int> ALL_SLOTS = {0,  1,  2,  3,  4,  5,  6,  7,  8,  9,
-                                    10, 11, 12, 13, 14, 15, 16, 17, 18, 19};
+                                    10, 11, 12, 13, 14, 15, 16, 17, 18, 19,
+                                    20, 21};
 
 // routes that work on the unchanged library (5 and 6, the non-const and
 // rvalue shared_ptr constructors, are exercised by the C09 profile only)
@@ -1218,7 +1221,7 @@ Plan gen_C09(std::uint64_t seed, int tier) {
     g.p.profile = "vptr";
     static const std::vector<std::string> pols = {
         "dbg", "rel", "vec", "map", "ind", "ind", "cind", "cind", "thr",
-        "sdbg", "srel"};
+        "sdbg", "srel", "shr"};
     std::string pol = pols[g.r.below(pols.size())];
     bool indirect = pol == "ind" || pol == "cind";
     g.p.pols = {pol};
@@ -1675,7 +1678,8 @@ Plan gen_C15(std::uint64_t seed, int tier) {
 Plan gen_C05(std::uint64_t seed, int tier) {
     Rng r(seed ^ 0xC05);
     HistOpts h;
-    h.b.pols = {"dbg", "dbg", "rel", "ind", "cind", "thr", "dfr", "sdbg", "srel"};
+    h.b.pols = {"dbg", "dbg", "rel", "ind", "cind", "thr", "dfr", "sdbg", "srel",
+                "shr"};
     h.b.min_cls = 1;
     h.b.max_cls = tier ? 28 : 20;
     h.b.max_alias = r.chance(0.5) ? 3 : 1;
@@ -1797,7 +1801,7 @@ Plan gen_C07(std::uint64_t seed, int tier) {
     Rng r(seed ^ 0xC07);
     HistOpts h;
     h.b.pols = {"dbg", "rel", "vec", "map", "ind", "cind", "thr",
-                "sdbg", "srel", "dfr", "dfv"};
+                "sdbg", "srel", "dfr", "dfv", "shr"};
     h.faults = r.chance(0.4);
     h.relocate = r.chance(0.4);
     h.p_recycle = r.chance(0.25) ? 0.12 : 0.0;
@@ -1835,7 +1839,8 @@ Plan gen_C10(std::uint64_t seed, int tier) {
     g.p.diff = "flavours";
     // one abstract registry instantiated on sibling policies
     std::vector<std::string> pool = {"dbg", "rel", "vec", "map", "ind",
-                                     "thr", "dfr", "dfv", "sdbg", "srel"};
+                                     "thr", "dfr", "dfv", "sdbg", "srel",
+                                     "shr"};
     g.r.shuffle(pool);
     int np = g.r.range(2, tier ? 5 : 3);
     pool.resize(np);
@@ -1940,7 +1945,7 @@ Plan gen_C18(std::uint64_t seed, int tier) {
     Rng r(seed ^ 0xC18);
     HistOpts h;
     h.b.pols = {"dbg", "rel", "vec", "map", "ind", "cind", "thr",
-                "sdbg", "srel"};
+                "sdbg", "srel", "shr"};
     h.b.max_defs = 8;
     h.b.max_meth = 4;
     h.min_steps = 6;
@@ -1957,7 +1962,7 @@ Plan gen_C14(std::uint64_t seed, int tier) {
     g.p.profile = "isolation";
     std::vector<std::string> pool = {"dbg", "rel", "vec", "map", "ind",
                                      "cind", "thr", "sdbg", "srel", "mapx",
-                                     "mapy", "relx", "vecx"};
+                                     "mapy", "relx", "vecx", "shr"};
     g.r.shuffle(pool);
     int np = g.r.range(2, 3);
     pool.resize(np);
@@ -2093,7 +2098,8 @@ Plan gen_C12(std::uint64_t seed, int tier) {
     o.max_cls = tier ? 14 : 9;
     // every arity; multi-methods more often (they have strides)
     o.slots = {0, 1, 2, 3, 4, 5, 6, 7, 8, 9, 10, 11, 12, 13, 14, 15, 16, 17,
-               18, 19, 4, 6, 7, 8, 9, 10, 12, 13, 16, 17, 19, 8, 9, 10};
+               18, 19, 4, 6, 7, 8, 9, 10, 12, 13, 16, 17, 19, 8, 9, 10, 20, 21,
+               20, 21};
     basic_world(g, o, false);
     int style = g.r.chance(0.5) ? (int)g.r.below(ST_COUNT) : -1;
     std::vector<int> base, later;
@@ -2258,7 +2264,7 @@ Plan gen_C13(std::uint64_t seed, int tier) {
     Rng r(seed ^ 0xC13);
     Plan p;
     BasicOpts o;
-    o.pols = {"sdbg", "srel"};
+    o.pols = {"sdbg", "srel", "shr"};
     // the documented use: decoded tables together with static offsets
     bool with_offsets = r.chance(0.3);
     if (with_offsets)
